@@ -7,10 +7,10 @@ Faults: replies reordered / duplicated / unsolicited / withheld, error-after-ret
 deadline-versus-reply races, stalls, graceful close and reset at arbitrary steps.
 Oracle: pending-call model keyed by the serial read off the wire (DESIGN.md A.3).
 """
-from twisted.internet import error as tierror
+from twisted.internet import defer, error as tierror
 
 from simdbus import gen, net, refcodec as rc
-from simdbus.harness import ClientRig, Obs, check_no_exceptions, check_no_logged_errors
+from simdbus.harness import ClientRig, Obs, check_no_exceptions, check_no_logged_errors, exc_key
 from simdbus.kernel import Violation
 from simdbus.sched import Scheduler
 
@@ -31,7 +31,7 @@ PROBES = ['reply-and-deadline-both-enabled', 'reply-after-timeout', 'duplicate-r
           'unsolicited-reply-delivered', 'loss-with-pending-calls', 'replies-out-of-call-order',
           'sig-mismatch', 'call-issued-from-callback', 'second-connection-same-serials',
           'identical-call-in-flight-twice', 'serial-wrap-around',
-          'hang-up-from-callback']
+          'hang-up-from-callback', 'call-cancelled-by-its-owner', 'call-cancelled-by-its-owner-from-a-callback']
 COMPONENTS = {
     'real': ['txdbus.client.DBusClientConnection (callRemote, callRemoteMessage, '
              'methodReturnReceived, errorReceived, _onMethodTimeout, connectionLost, _cbCvtReply)',
@@ -58,6 +58,8 @@ class Call:
         self.done = None           # expected completion once decided by the model
         self.member = None
         self.sig = None
+        self.d = None
+        self.user_cancelled = False
 
 
 def expected_value(m):
@@ -224,6 +226,7 @@ def scenario(ctx):
         d = rig.call(cl.callRemote, '/svc', member, interface=SVC_IFACE,
                      destination=dest, signature=sig or None, body=body, **kw)
         c.obs = Obs(sim, cid, sink).watch(d)
+        c.d = d
         new = [t for t in sim.timers if id(t) not in before]
         if len(rig.sent) != nsent + 1:
             raise Violation('C08/send', 'call-not-written',
@@ -259,6 +262,13 @@ def scenario(ctx):
                         stashed.append(v)
                 return None
             d.addBoth(chain)
+        elif forced is None and not scripted and ds.flag(0.06):
+            # user code cancelling another outstanding call from inside the completion callback
+            # (also while the loss of the connection is being reported)
+            def cancel_other(result, me=c):
+                cancel_one(exclude=me, from_callback=True)
+                return None
+            d.addBoth(cancel_other)
         elif forced is None and not scripted and ds.flag(0.05):
             # user code hanging up from inside the completion callback: replies already received
             # in the same read still belong to their calls
@@ -270,7 +280,29 @@ def scenario(ctx):
                 return None
             d.addBoth(hangup)
 
+    def cancel_one(exclude=None, from_callback=False):
+        # the owner of an outstanding call gives up on it: it completes with CancelledError there
+        # and then; whatever arrives for it later completes nothing
+        victims = [o for o in calls if o is not exclude and o.expect_reply and not o.done
+                   and not o.user_cancelled and o.obs is not None and not o.obs.fired]
+        if not victims:
+            return
+        v = victims[ds.choose(len(victims))]
+        v.user_cancelled = True
+        sim.probe('call-cancelled-by-its-owner' + ('-from-a-callback' if from_callback else ''))
+        sim.log('op', 'cancel', v.cid, from_callback)
+        if from_callback:
+            chained[0] = True
+        complete(v, ('cancelled', None))
+        try:
+            v.d.cancel()
+        except Exception as e:
+            stashed.append(Violation('C08/api-raised', exc_key(e), 'Deferred.cancel() of call#%d raised %r'
+                                     % (v.cid, e)))
+
     def complete(c, how):
+        if c.user_cancelled and how[0] != 'cancelled':
+            return          # already completed by its owner; nothing more is owed
         c.done = how
         expected.append(c)
         completed.append(c)
@@ -281,7 +313,10 @@ def scenario(ctx):
         if budget[0] > 0 and cl.transport.state == net.OPEN:
             def op():
                 budget[0] -= 1
-                issue()
+                if not scripted and ds.flag(0.06):
+                    cancel_one()
+                else:
+                    issue()
             ops.append(('call', op))
         faults = []
         if rig.conn.a.state == net.OPEN and calls:
@@ -396,12 +431,16 @@ def scenario(ctx):
             check_completion(calls[label], kind, val)
         # timers of completed calls are gone
         for c in calls:
+            if c.user_cancelled and pending.get(c.serial) is c:
+                continue        # cancelled by its owner, not yet resolved on the wire
             if c.done and c.dc is not None and c.dc.active():
                 raise Violation('C08/leak-timer', 'deadline still active after ' + c.done[0],
                                 'call#%d completed (%s) but its deadline timer is still active'
                                 % (c.cid, c.done[0]))
         book = getattr(cl, '_pendingCalls', None)
-        if book is not None and rig.conn.a.state != net.LOST and len(book) != len(pending):
+        ncan = sum(1 for c in pending.values() if c.user_cancelled)
+        if book is not None and rig.conn.a.state != net.LOST and \
+                not (len(pending) - ncan <= len(book) <= len(pending)):
             raise Violation('C08/bookkeeping', 'pending table size',
                             'connection holds %d pending entries, model %d'
                             % (len(book), len(pending)))
@@ -436,6 +475,9 @@ def scenario(ctx):
         elif how == 'lost':
             if kind != 'err' or not val.check(tierror.ConnectionDone, tierror.ConnectionLost):
                 bad('not the loss reason')
+        elif how == 'cancelled':
+            if kind != 'err' or not val.check(defer.CancelledError):
+                bad('not CancelledError')
 
     def probe_races():
         t = sim.next_timer()
